@@ -60,6 +60,7 @@ def replay(ctx, cfg, events, ops, expected, mres, props):
             ctx.disagree("editing call raised an unexpected exception", case, status, None)
             return
         mstate = None
+        probs = None
         if mres is not None:
             mstatus, mstate, mchk, mwf = mres[k + 1]
             # how much of what the implementation accepts lies inside the quantifier of Proofs.EditRep.history_consistent
@@ -68,15 +69,11 @@ def replay(ctx, cfg, events, ops, expected, mres, props):
                 ctx.count("calls_ok_in_impl_but_outside_wf_op_b")
                 if len(ctx.notes) < 8:
                     ctx.notes.append("call accepted by the implementation but not admissible for Model.EditOps.wf_op_b: %r" % (op,))
-            if not mchk:
-                ctx.disagree("Spec.Tree.consistent_b (rep of the forest read off the child lists) holds after the call", case, None, 0)
-                return
             probs = forest.sync(mstate)
-            if probs:
-                ctx.disagree("elements created by the call ~ model allocation", case, probs[:3], None)
-                return
         else:
             forest.discover(None)
+        # the direct oracles run first, so that a real violation is reported with its concrete history even when the
+        # correspondence with the model is what notices it first
         if "C01" in props:
             bad = walk_check(forest)
             if bad:
@@ -88,6 +85,13 @@ def replay(ctx, cfg, events, ops, expected, mres, props):
             if (status, ish) != (est, eshape):
                 ctx.fail(case, "editing call did not have exactly its documented effect on the forest",
                          {"status": status, "forest": ish}, {"status": est, "forest": eshape})
+                return
+        if mres is not None:
+            if not mchk:
+                ctx.disagree("Spec.Tree.consistent_b (rep of the forest read off the child lists) holds after the call", case, None, 0)
+                return
+            if probs:
+                ctx.disagree("elements created by the call ~ model allocation", case, probs[:3], None)
                 return
         if mres is not None:
             if mstatus != status:
